@@ -258,17 +258,36 @@ func TestCheck(t *testing.T) {
 			t.Fatal(err)
 		}
 		var exprs []string
-		var eng bool
+		var engMatches bool
+		if rp.Mode == "flow-catch-all" {
+			files := map[string]string{"all.yaml": flowYAML("all", "*", nil), "p.yaml": flowYAML("p", rp.Pattern, []string{"GET"})}
+			s, root, err := eng.NewStream(eng.Files{Flows: files})
+			defer eng.Remove(root)
+			if err != nil {
+				t.Fatal(err)
+			}
+			bad := 0
+			for rep := 0; rep < 24; rep++ {
+				if rq := routing.VerifFlowsEndpointsRequest(s); !rq.ManageAll {
+					bad++
+				}
+			}
+			fmt.Printf("replay catch-all + %s: manage_all missing in %d of 24 builds\n", rp.Pattern, bad)
+			if bad > 0 {
+				t.Fail()
+			}
+			return
+		}
 		if rp.Mode == "flow" {
 			exprs, _, _ = flowExpressions(rp.Pattern, rp.Methods)
-			eng = flowEngineMatches(rp.Pattern, rp.Methods, rp.Method, rp.URL)
+			engMatches = flowEngineMatches(rp.Pattern, rp.Methods, rp.Method, rp.URL)
 		} else {
 			exprs, _ = policyExpressions(rp.Pattern, rp.Methods[0])
-			eng = policyEngineMatches(rp.Pattern, rp.Methods[0], rp.Method, rp.URL)
+			engMatches = policyEngineMatches(rp.Pattern, rp.Methods[0], rp.Method, rp.URL)
 		}
 		ok, why := covered(exprs, rp.Method, rp.URL)
-		fmt.Printf("replay %s pattern=%s methods=%v request=%s %s: engine matches=%v, registered %q covers=%v %s\n", rp.Mode, rp.Pattern, rp.Methods, rp.Method, rp.URL, eng, exprs, ok, why)
-		if eng && !ok {
+		fmt.Printf("replay %s pattern=%s methods=%v request=%s %s: engine matches=%v, registered %q covers=%v %s\n", rp.Mode, rp.Pattern, rp.Methods, rp.Method, rp.URL, engMatches, exprs, ok, why)
+		if engMatches && !ok {
 			t.Fail()
 		}
 		return
@@ -340,6 +359,37 @@ func TestCheck(t *testing.T) {
 						}
 					}
 				}
+			}
+		}
+		// a catch-all flow ("*") next to a flow on this pattern: transactions on other hosts are
+		// handled by the catch-all flow and must be managed too.  The manager walks its filters
+		// in Go map order, so the request is rebuilt several times per engine (this repeats
+		// over the runtime's randomised iteration order; it is not an enumeration of it).
+		idx++
+		if r.Mine(idx) {
+			files := map[string]string{"all.yaml": flowYAML("all", "*", nil), "p.yaml": flowYAML("p", p, []string{"GET"})}
+			if s, root, err := eng.NewStream(eng.Files{Flows: files}); err == nil {
+				for rep := 0; rep < 24; rep++ {
+					rq := routing.VerifFlowsEndpointsRequest(s)
+					r.Add("evaluations", 1)
+					if rq.ManageAll {
+						continue
+					}
+					var exprs []string
+					for _, e := range rq.ManagedEndpoints {
+						exprs = append(exprs, e.Endpoint)
+					}
+					if ok, why := covered(exprs, "GET", "other.org/x/y"); !ok {
+						r.Violation("flow:catch-all-next-to-other-flow", fmt.Sprintf("flows on * and on %s: the catch-all flow handles GET other.org/x/y, but manage_all is not set and none of the registered expressions %q matches it %s (build %d of the same engine)", p, exprs, why, rep),
+							replay{"flow-catch-all", p, []string{"GET"}, "GET", "other.org/x/y"})
+						break
+					}
+				}
+				r.NonTrivial(fmt.Sprint("catch-all", p))
+				eng.Remove(root)
+			} else {
+				eng.Remove(root)
+				r.Outcome("catch-all-load-rejected: " + err.Error())
 			}
 		}
 		for _, dm := range []string{"GET", "POST", "GET,DELETE", "POST,GET,PUT"} {
